@@ -1,0 +1,337 @@
+//! Verification hooks. Compiled only with `--cfg pnordahl_monorail_verif`; nothing in
+//! here is reachable from a normal build.
+//!
+//! Two kinds of hook live here:
+//!   * thin in-process wrappers that expose crate-private pure functionality (index
+//!     construction, analysis, graph layering, the log capture pipeline) to an external
+//!     conformance harness, and
+//!   * `point`, a named program point that can record itself to a trace file, delay or
+//!     abort the process, steered entirely by environment variables.
+use std::collections::{HashMap, HashSet};
+use std::io::{Read, Write};
+use std::path::Path;
+use std::sync::{Arc, Mutex, OnceLock};
+
+use serde_json::{json, Value};
+
+use crate::app::{analyze as app_analyze, log as app_log};
+use crate::core::{self, error::MonorailError, graph, Change};
+
+fn err_value(e: MonorailError) -> Value {
+    serde_json::to_value(&e).unwrap_or_else(|_| json!({"type": "unserializable"}))
+}
+
+fn parse_config(config_json: &str) -> Result<core::Config, Value> {
+    serde_json::from_str::<core::Config>(config_json).map_err(|e| err_value(e.into()))
+}
+
+/// `Index::new` over every configured target followed by `app::analyze::analyze` on an
+/// explicit list of changes (`None` = no checkpoint).
+pub fn analyze(
+    config_json: &str,
+    work_path: &Path,
+    changes: Option<&[String]>,
+    show_changes: bool,
+    show_change_targets: bool,
+    show_target_groups: bool,
+) -> Result<Value, Value> {
+    let cfg = parse_config(config_json)?;
+    let ths = cfg.get_target_path_set();
+    let mut index = core::Index::new(&cfg, &ths, work_path).map_err(err_value)?;
+    let input =
+        app_analyze::AnalyzeInput::new(show_changes, show_change_targets, show_target_groups);
+    let ch = changes.map(|c| {
+        c.iter()
+            .map(|n| Change { name: n.clone() })
+            .collect::<Vec<Change>>()
+    });
+    let out = app_analyze::analyze(&input, &mut index, ch).map_err(err_value)?;
+    serde_json::to_value(&out).map_err(|e| err_value(e.into()))
+}
+
+/// The dependency graph an `Index` builds for a configuration: node labels by node id and
+/// the adjacency list (`edges[i]` = nodes that node `i` depends on).
+pub fn index_edges(config_json: &str, work_path: &Path) -> Result<Value, Value> {
+    let cfg = parse_config(config_json)?;
+    let ths = cfg.get_target_path_set();
+    let index = core::Index::new(&cfg, &ths, work_path).map_err(err_value)?;
+    let adj = index.dag.verif_adj_list();
+    let mut nodes = Vec::with_capacity(adj.len());
+    for i in 0..adj.len() {
+        nodes.push(
+            index
+                .dag
+                .get_label_by_node(&i)
+                .map_err(|e| err_value(e.into()))?
+                .clone(),
+        );
+    }
+    Ok(json!({"nodes": nodes, "edges": adj}))
+}
+
+/// `Index::new` with the given visible roots, then `Dag::get_labeled_groups`.
+pub fn index_groups(
+    config_json: &str,
+    work_path: &Path,
+    visible: &[String],
+) -> Result<Value, Value> {
+    let cfg = parse_config(config_json)?;
+    let vis: HashSet<&String> = visible.iter().collect();
+    let mut index = core::Index::new(&cfg, &vis, work_path).map_err(err_value)?;
+    let groups = index
+        .dag
+        .get_labeled_groups()
+        .map_err(|e| err_value(e.into()))?;
+    Ok(json!(groups))
+}
+
+/// A bare `Dag` over nodes `0..n`: `adj[i]` = dependencies of `i`; `roots` are made visible
+/// in the order given; returns the groups in execution order (as `get_labeled_groups`).
+pub fn dag_groups(n: usize, adj: &[Vec<usize>], roots: &[usize]) -> Result<Vec<Vec<usize>>, Value> {
+    let mut dag = graph::Dag::new(n);
+    for i in 0..n {
+        dag.set_label(&format!("n{}", i), i)
+            .map_err(|e| err_value(e.into()))?;
+    }
+    for (i, deps) in adj.iter().enumerate() {
+        dag.set(i, deps.clone());
+    }
+    for r in roots {
+        dag.set_subtree_visibility(*r, true)
+            .map_err(|e| err_value(e.into()))?;
+    }
+    let groups = dag.get_groups().map_err(|e| err_value(e.into()))?;
+    Ok(groups.into_iter().rev().collect())
+}
+
+/// Drives the log capture pipeline of one target group exactly as `process_plan` wires it
+/// (one `Compressor` with `num_threads` threads, one registration per stream in order, one
+/// `process_reader` per stream, End on EOF, Shutdown to every client, join), with in-memory
+/// pipes instead of child processes. `streams[i]` is a script of `(delay_ms, bytes)` chunks:
+/// wait `delay_ms`, then write `bytes`; the pipe is closed after the last chunk.
+/// Returns the decompressed content of every stream's log file.
+pub async fn capture(
+    dir: &Path,
+    streams: Vec<Vec<(u64, Vec<u8>)>>,
+    num_threads: usize,
+) -> Result<Vec<Vec<u8>>, Value> {
+    let mut compressor = app_log::Compressor::new(
+        num_threads,
+        Arc::new(std::sync::atomic::AtomicBool::new(false)),
+    );
+    let mut paths = vec![];
+    let mut clients = vec![];
+    for i in 0..streams.len() {
+        let name = if i % 2 == 0 {
+            app_log::STDOUT_FILE
+        } else {
+            app_log::STDERR_FILE
+        };
+        let d = dir.join(format!("t{}", i / 2));
+        std::fs::create_dir_all(&d).map_err(|e| err_value(e.into()))?;
+        let p = d.join(name);
+        clients.push(compressor.register(&p).map_err(err_value)?);
+        paths.push(p);
+    }
+    let compressor_handle = std::thread::spawn(move || compressor.run());
+    let token = Arc::new(tokio_util::sync::CancellationToken::new());
+    let mut js = tokio::task::JoinSet::new();
+    for (i, script) in streams.into_iter().enumerate() {
+        let (mut tx, rx) = tokio::io::duplex(1 << 20);
+        let client = clients[i].clone();
+        let token = token.clone();
+        js.spawn(async move {
+            use tokio::io::AsyncWriteExt;
+            for (delay_ms, bytes) in script {
+                if delay_ms > 0 {
+                    tokio::time::sleep(tokio::time::Duration::from_millis(delay_ms)).await;
+                }
+                tx.write_all(&bytes).await.map_err(MonorailError::from)?;
+            }
+            drop(tx);
+            Ok::<(), MonorailError>(())
+        });
+        js.spawn(async move {
+            app_log::process_reader(
+                tokio::io::BufReader::new(rx),
+                client,
+                format!("[s{}]\n", i),
+                None,
+                token,
+            )
+            .await
+        });
+    }
+    let mut first_err = None;
+    while let Some(r) = js.join_next().await {
+        match r {
+            Ok(Ok(())) => {}
+            Ok(Err(e)) => {
+                first_err.get_or_insert(err_value(e));
+            }
+            Err(e) => {
+                first_err.get_or_insert(err_value(e.into()));
+            }
+        }
+    }
+    for c in &clients {
+        if let Err(e) = c.shutdown().await {
+            first_err.get_or_insert(err_value(e));
+        }
+    }
+    match compressor_handle.join() {
+        Ok(Ok(())) => {}
+        Ok(Err(e)) => {
+            first_err.get_or_insert(err_value(e));
+        }
+        Err(_) => {
+            first_err.get_or_insert(json!({"type": "panic", "message": "compressor panicked"}));
+        }
+    }
+    if let Some(e) = first_err {
+        return Err(e);
+    }
+    let mut out = vec![];
+    for p in paths {
+        let f = std::fs::File::open(&p).map_err(|e| err_value(e.into()))?;
+        let mut dec = zstd::stream::read::Decoder::new(f).map_err(|e| err_value(e.into()))?;
+        let mut v = vec![];
+        dec.read_to_end(&mut v).map_err(|e| err_value(e.into()))?;
+        out.push(v);
+    }
+    Ok(out)
+}
+
+// ---------------------------------------------------------------------------------------
+// Program points
+//
+//   MONORAIL_VERIF_TRACE=<file>     append one JSON line {seq,pid,point,arg} per hit
+//   MONORAIL_VERIF_DELAY=<point>:<n|*>:<ms|@file>[,...]   at the n-th hit (1-based; * = every
+//                                   hit) sleep ms, or block until the file exists
+//   MONORAIL_VERIF_CRASH=<point>:<n>   abort the process (SIGABRT-free: _exit(137)) at the n-th hit
+
+struct DelaySpec {
+    point: String,
+    nth: Option<usize>,
+    ms: Option<u64>,
+    file: Option<String>,
+}
+struct PointCfg {
+    trace: Option<Mutex<std::fs::File>>,
+    delays: Vec<DelaySpec>,
+    crash: Option<(String, usize)>,
+    counts: Mutex<HashMap<String, usize>>,
+    seq: Mutex<u64>,
+}
+
+fn point_cfg() -> &'static PointCfg {
+    static CFG: OnceLock<PointCfg> = OnceLock::new();
+    CFG.get_or_init(|| {
+        let trace = std::env::var("MONORAIL_VERIF_TRACE").ok().and_then(|p| {
+            std::fs::OpenOptions::new()
+                .create(true)
+                .append(true)
+                .open(p)
+                .ok()
+                .map(Mutex::new)
+        });
+        let mut delays = vec![];
+        if let Ok(s) = std::env::var("MONORAIL_VERIF_DELAY") {
+            for part in s.split(',') {
+                let f: Vec<&str> = part.splitn(3, ':').collect();
+                if f.len() == 3 {
+                    let nth = if f[1] == "*" { None } else { f[1].parse().ok() };
+                    let (ms, file) = match f[2].strip_prefix('@') {
+                        Some(p) => (None, Some(p.to_string())),
+                        None => (f[2].parse().ok(), None),
+                    };
+                    delays.push(DelaySpec {
+                        point: f[0].to_string(),
+                        nth,
+                        ms,
+                        file,
+                    });
+                }
+            }
+        }
+        let crash = std::env::var("MONORAIL_VERIF_CRASH").ok().and_then(|s| {
+            let f: Vec<&str> = s.splitn(2, ':').collect();
+            if f.len() == 2 {
+                f[1].parse().ok().map(|n| (f[0].to_string(), n))
+            } else {
+                None
+            }
+        });
+        PointCfg {
+            trace,
+            delays,
+            crash,
+            counts: Mutex::new(HashMap::new()),
+            seq: Mutex::new(0),
+        }
+    })
+}
+
+/// A named program point. Free unless one of the MONORAIL_VERIF_* variables is set.
+pub fn point(name: &str, arg: &str) {
+    let cfg = point_cfg();
+    if cfg.trace.is_none() && cfg.delays.is_empty() && cfg.crash.is_none() {
+        return;
+    }
+    let hit = {
+        let mut counts = cfg.counts.lock().unwrap();
+        let c = counts.entry(name.to_string()).or_insert(0);
+        *c += 1;
+        *c
+    };
+    if let Some(t) = &cfg.trace {
+        // sequence number and write happen under the same lock
+        let mut f = t.lock().unwrap();
+        let mut seq = cfg.seq.lock().unwrap();
+        *seq += 1;
+        let line = json!({"seq": *seq, "pid": std::process::id(), "point": name, "arg": arg, "hit": hit});
+        let _ = writeln!(f, "{}", line);
+        let _ = f.flush();
+    }
+    if let Some((p, n)) = &cfg.crash {
+        if p == name && *n == hit {
+            // die like SIGKILL would: no destructors, no flushing
+            unsafe { libc_exit(137) }
+        }
+    }
+    for d in &cfg.delays {
+        if d.point == name && d.nth.map_or(true, |n| n == hit) {
+            if let Some(ms) = d.ms {
+                std::thread::sleep(std::time::Duration::from_millis(ms));
+            }
+            if let Some(file) = &d.file {
+                let deadline = std::time::Instant::now() + std::time::Duration::from_secs(120);
+                while !Path::new(file).exists() && std::time::Instant::now() < deadline {
+                    std::thread::sleep(std::time::Duration::from_millis(2));
+                }
+            }
+        }
+    }
+}
+
+extern "C" {
+    fn _exit(code: i32) -> !;
+}
+unsafe fn libc_exit(code: i32) -> ! {
+    _exit(code)
+}
+
+/// Emits `<name>.releasing` when dropped; declare it right after the lock guard so that it
+/// is dropped right before the lock is released.
+pub struct Span(pub &'static str);
+impl Span {
+    pub fn new(name: &'static str, arg: &str) -> Self {
+        point(&format!("{}.acquired", name), arg);
+        Span(name)
+    }
+}
+impl Drop for Span {
+    fn drop(&mut self) {
+        point(&format!("{}.releasing", self.0), "");
+    }
+}
